@@ -127,6 +127,7 @@ def search(ctx, broken):
         cases = G.run_jobs(jobs_for(sub, deep=True), int(os.environ.get("VERIF_PROCS", "6")))
         evaluate(sub, cases, "search-deep")
         run_tokens(sub, deep=True)
+    K.disagreement_violations(ctx, sub, "c34")
     ctx.violations.extend(sub.violations)
 
 
